@@ -1003,6 +1003,9 @@ func ruleC04(r *Report) {
 			return cs != nil && strings.Contains(cs.Obj().Name(), "TrackedRequest")
 		})
 	})
+	// ... and each of them was decoded without error from a cookie named after its signed index (C17.tracker, borrowed):
+	// an undecodable cookie listed as a zero TrackedRequest puts the empty ID on the outstanding list
+	r.borrow("C17.tracker", "C04.middleware", func() { checkTracker(r, p, "C17.tracker") })
 }
 
 // checkIDsForwarded: inside the root package the set of outstanding request IDs is the caller's: wherever a function on
